@@ -146,7 +146,8 @@ SHAPES = {
     'C10': ['processAuthorizedRequest'],
     'C11': ['ServeHTTP', 'handleLogout', 'determineScheme', 'determineHost'],
     'C15': ['handleCallback', 'handleLogout', 'defaultInitiateAuthentication', 'determineScheme', 'determineHost'],
-    'C17': ['ServeHTTP', 'handleExpiredToken', 'defaultInitiateAuthentication'],
+    'C17': ['ServeHTTP', 'handleExpiredToken', 'defaultInitiateAuthentication', 'handleCallback'],
+    'C04': ['ServeHTTP'],
     'C16': ['sendErrorResponse'],
     'C20': ['ServeHTTP'],
 }
